@@ -681,6 +681,30 @@ fn part_b_low(qs: &mut QStats, a: &Args) {
         for t in [act + 100, act + 489, act + 490, act + 498, act + 499, act + 500] {
             qstep(qs, &mut st, &qb::Op::Tip(t));
         }
+        // prune with a non-retained row that ends exactly at the pruning height and is followed by an Ignored row
+        {
+            let mut st = qb::build(0, None);
+            qs.histories += 1;
+            qstep(qs, &mut st, &qb::Op::Tip(act + 50));
+            qstep(qs, &mut st, &qb::Op::Scan { s: act, e: act + 10, sap: vec![], orc: vec![], prime: true });
+            qstep(qs, &mut st, &qb::Op::Prune(act + 30, Some(ScanPriority::ChainTip)));
+            qstep(qs, &mut st, &qb::Op::Rescan(vec![(act + 15, act + 20)], ScanPriority::FoundNote));
+            qstep(qs, &mut st, &qb::Op::Prune(act + 20, Some(ScanPriority::ChainTip)));
+            qstep(qs, &mut st, &qb::Op::Prune(act + 25, Some(ScanPriority::ChainTip)));
+        }
+        // birthday == tip + 1 with shard metadata below it: update_chain_tip inserts an EMPTY ChainTip range first.
+        // (a) nothing scanned: both entries empty; (b) blocks scanned below the birthday, far from the tip: Verify range;
+        // (c) scanned close to the tip: a non-empty ChainTip range ending at the birthday follows the empty one
+        for (scan, tip) in [(None, act + 499), (Some((act + 300, act + 311)), act + 499), (Some((act + 440, act + 451)), act + 499),
+                            (Some((act + 489, act + 500)), act + 499)] {
+            let mut st = qb::build(500, Some(10));
+            qs.histories += 1;
+            if let Some((s, e)) = scan {
+                qstep(qs, &mut st, &qb::Op::Scan { s, e, sap: vec![], orc: vec![], prime: true });
+            }
+            qstep(qs, &mut st, &qb::Op::Tip(tip));
+            qstep(qs, &mut st, &qb::Op::Tip(tip + 1));
+        }
         // queue_rescans with an empty range that is not last: the tree's known finding through the wallet API
         let mut st = qb::build(0, None);
         qs.histories += 1;
